@@ -12,7 +12,7 @@ faulthandler.register(signal.SIGUSR1, all_threads=True)
 import joblib  # noqa: E402
 from joblib import Parallel, delayed  # noqa: E402
 
-from vlib.c04_tasks import EXC, Boom, init_worker, tagged_task, transport_task  # noqa: E402
+from vlib.c04_tasks import EXC, Boom, PicklingRaisesIndexError, init_worker, tagged_task, transport_task  # noqa: E402
 
 
 def children():
@@ -59,7 +59,8 @@ def main():
             if c["kind"] == "iter" and i == c["iter_fail_at"]:
                 raise EXC[c.get("exc", "Boom")]("iter", tag, i)
             if c["kind"] == "transport" and i in c["fail_at"]:
-                yield delayed(transport_task)(i, tag, c["how"], threading.Lock() if c["how"] == "unpicklable-argument" else None)
+                yield delayed(transport_task)(i, tag, c["how"], threading.Lock() if c["how"] == "unpicklable-argument" else
+                                              (PicklingRaisesIndexError() if c["how"] == "argument-pickling-raises-IndexError" else None))
                 continue
             yield delayed(tagged_task)(i, tag, c.get("exc", "Boom") if c["kind"] == "task" and i in c["fail_at"] else False, 0.002 if i % 3 == 0 else 0)
 
